@@ -5,6 +5,7 @@ import (
 	"math"
 	"math/rand/v2"
 	"reflect"
+	"strconv"
 	"strings"
 	"time"
 
@@ -25,6 +26,8 @@ type VG struct {
 	ValidUTF8 bool
 	// Budget bounds the total number of containers/elements generated for one value
 	Budget int
+	// Unique, when set, makes two strings in three never-seen-before values ("u<counter>")
+	Unique *int
 }
 
 // boundaries of the varint groups, zig-zag edges, width limits
@@ -91,6 +94,10 @@ func (g *VG) float() float64 {
 }
 
 func (g *VG) str() string {
+	if g.Unique != nil && g.R.IntN(3) != 0 {
+		*g.Unique++
+		return "u" + strconv.Itoa(*g.Unique)
+	}
 	for {
 		var s string
 		switch n := g.R.IntN(40); {
